@@ -331,6 +331,33 @@ func runC19(c c19Case) Result {
 			return bad(class, "pipeline:verify-rejects-prove-output", "verify exited %d on the proof 'prove' just wrote (%d short coordinate(s) at %v): %s", v.ExitCode, n, pos, tail(v.Stderr, 300))
 		}
 		return ok(class, c.Depth != 3 || c.Batch != 2)
+	case "setup-over-existing-other-mode-file":
+		// commands sharing files in another order: the output path of 'setup' already holds keys of the OTHER mode
+		// (same dimensions); afterwards the pipeline for the requested mode must compose over that file
+		reuse := filepath.Join(e.dir, "reused.ps")
+		raw, err := os.ReadFile(e.other)
+		if err != nil {
+			return bad(class, "harness:read", "%v", err)
+		}
+		if err := os.WriteFile(reuse, raw, 0o644); err != nil {
+			return bad(class, "harness:write", "%v", err)
+		}
+		raw = nil
+		defer os.Remove(reuse)
+		st := runCLI(900*time.Second, nil, nil, "setup", "--mode", c.Mode, "--output", reuse, "--tree-depth", fmt.Sprint(c.Depth), "--batch-size", fmt.Sprint(c.Batch))
+		if st.ExitCode != 0 {
+			return bad(class, "setup:exit", "setup over an existing file exited %d: %s", st.ExitCode, tail(st.Stderr, 200))
+		}
+		m := fixedValidParamsDims(c.Mode, c.Depth, c.Batch)
+		p := runCLI(tmo, []byte(m.writeDoc(styleHexLower)), nil, "prove", "--mode", c.Mode, "--keys-file", reuse)
+		if p.ExitCode != 0 {
+			return bad(class, "setup:exit0-but-keys-unusable", "'setup --mode %s' exited 0 on a path that held %s keys, but 'prove --mode %s' with that file exits %d: %s", c.Mode, otherMode(c.Mode), c.Mode, p.ExitCode, tail(p.Stderr, 200))
+		}
+		v := runCLI(tmo, p.Stdout, nil, "verify", "--mode", c.Mode, "--keys-file", reuse, "--input-hash", "0x"+m.InputHash.Text(16))
+		if v.ExitCode != 0 {
+			return bad(class, "setup:exit0-but-keys-unusable", "verify with the re-created keys exits %d: %s", v.ExitCode, tail(v.Stderr, 200))
+		}
+		return ok(class, true)
 	case "convert-then-verify":
 		conv := filepath.Join(e.dir, fmt.Sprintf("converted-%d.ps", time.Now().UnixNano()))
 		defer os.Remove(conv)
@@ -439,6 +466,16 @@ func TestC19_Commands(t *testing.T) {
 				}
 				t.Fatal(msg)
 			}
+		}
+	}
+	{
+		c := c19Case{Mode: mode, Depth: depth, Batch: batch, Kind: "setup-over-existing-other-mode-file", Expect: "exit0"}
+		res := runC19(c)
+		if msg := handle(col, "C19", "TestC19_Commands", c, res); msg != "" {
+			if !strings.HasPrefix(msg, "HARNESS-ERROR") {
+				fmt.Printf("VIOLATION property=C19 replay=%s\n", replayPath("C19", "TestC19_Commands"))
+			}
+			t.Fatal(msg)
 		}
 	}
 	RunRapidWith(t, col, Check[c19Case]{Prop: "C19", Test: "TestC19_Commands", Gen: genC19(d[0].(string), d[1].(int), d[2].(int)), Run: runC19})
